@@ -134,6 +134,13 @@ func buildFile(fc fileCase) (f *ach.File, panicked any) {
 		r := rng.New(fc.Seed ^ 0x5bd1e995)
 		mutateFields(r, f, r.Range(1, 2))
 		return f, nil
+	case "needsopts": // gen.NeedsOpts: valid only under the options stored on file / batches / records
+		r := rng.New(fc.Seed)
+		vs := gen.OptVariants()
+		if g := gen.NeedsOptsOf(r, vs[int(fc.Seed>>3)%len(vs)]); g != nil {
+			return g, nil
+		}
+		return genValidFile(fc), nil
 	case "gentext": // the same file written out and read back by the Reader under the case's options
 		g := genValidFile(fc)
 		text, err := gen.Text(g, fc.Seed&1 == 0)
